@@ -8,7 +8,8 @@ From Coq Require Import ExtrOcamlBasic.
 From LC.Cont Require SetImpl Heap.
 From LC.CP Require Lexer LexSpec LexEquiv.
 From LC.Base Require Utf8.
-From LC.V2 Require Tok TokTables.
+From LC.V2 Require Tok TokTables Reader SSet Match.
+From LC.Base Require Float64 Sort.
 
 Extraction Blacklist List String Int.
 
@@ -16,4 +17,5 @@ Separate Extraction
   SetImpl.run SetImpl.step
   Heap.run Heap.empty Heap.lookup Heap.arr Heap.idx
   Lexer.parse Lexer.original Lexer.repaired Lexer.chunks LexSpec.spec_parse LexEquiv.lang_wf'
-  Tok.tokenize_whole Tok.tokenize_runes TokTables.mk_tables Utf8.decode_all Utf8.encode_all.
+  Match.match_tokens Float64.of_bits Float64.to_bits Float64.of_Z TokTables.in_ranges
+  Reader.tokenize_stream Tok.tokenize_whole Tok.tokenize_runes TokTables.mk_tables Utf8.decode_all Utf8.encode_all.
